@@ -35,7 +35,77 @@ def flow_sites(log):
     return names('native_sites'), names('wasm_sites'), sizes
 
 
+def mem_sites(log):
+    """sites where the memory discipline of C11/C12 is broken, on the regenerated SSA facts"""
+    path = os.path.join(WORK, 'mem_sites.v')
+    with open(path, 'w') as f:
+        f.write('From Coq Require Import List String.\nFrom OtpV Require Import Flow SsaNative SsaWasm.\n'
+                'Definition native_sites := Eval vm_compute in mem_site_names SsaNative.mem_facts (msearch SsaNative.mem_facts).\n'
+                'Definition wasm_sites := Eval vm_compute in mem_site_names SsaWasm.mem_facts (msearch SsaWasm.mem_facts).\n'
+                'Definition sizes := Eval vm_compute in (List.length (m_alias SsaNative.mem_facts), List.length (m_writes SsaNative.mem_facts), List.length (m_alias SsaWasm.mem_facts), List.length (m_writes SsaWasm.mem_facts), List.length (m_params SsaNative.mem_facts), List.length (m_globals SsaNative.mem_facts)).\n'
+                'Set Printing Width 100000. Set Printing Depth 100000.\nPrint native_sites. Print wasm_sites. Print sizes.\n')
+    p = subprocess.run(['coqc'] + FLAGS + [path], cwd=COQ, stdout=subprocess.PIPE, stderr=subprocess.STDOUT, text=True, timeout=900)
+    for ext in ('.vo', '.vok', '.vos', '.glob'):
+        try:
+            os.remove(path[:-2] + ext)
+        except OSError:
+            pass
+    log.write('--- mem sites\n' + p.stdout[-3000:])
+    if p.returncode:
+        return None, None, None
+    def names(which):
+        m = re.search(which + r'\s*=\s*(.*?)\s*:\s*list string', p.stdout, re.S)
+        return re.findall(r'"((?:[^"]|"")*)"', m.group(1)) if m else None
+    m = re.search(r'sizes\s*=\s*\((.*?)\)\s*:', p.stdout, re.S)
+    sizes = [int(x) for x in re.findall(r'\d+', m.group(1))] if m else []
+    return names('native_sites'), names('wasm_sites'), sizes
+
+
+def race_run(seed, log):
+    """the concurrent histories again under the race detector (thorough tier)"""
+    env = dict(os.environ, GOWORK='off', GOFLAGS='-mod=mod', GOPROXY='off')
+    env.pop('GOSUMDB', None)
+    out = os.path.join(WORK, 'harness_race')
+    p = subprocess.run(['go', 'build', '-race', '-tags', 'verif', '-o', out, '.'], cwd=os.path.join(ROOT, 'harness'), env=env,
+                       stdout=subprocess.PIPE, stderr=subprocess.STDOUT, text=True, timeout=1800)
+    if p.returncode:
+        log.write('--- race build failed\n' + p.stdout[-2000:])
+        return None, 0
+    g = subprocess.run([os.path.join(ROOT, 'bin', 'harness'), 'gen', 'c11', str(seed), '40'], stdout=subprocess.PIPE, text=True, timeout=600)
+    r = subprocess.run([out, 'exec'], input=g.stdout, env=dict(os.environ, GORACE='halt_on_error=1 exitcode=66'),
+                       stdout=subprocess.PIPE, stderr=subprocess.PIPE, text=True, timeout=3600)
+    log.write('--- race run rc=%d\n%s' % (r.returncode, r.stderr[-4000:]))
+    if 'DATA RACE' in r.stderr:
+        return r.stderr[:6000], g.stdout.count('\n')
+    return '', g.stdout.count('\n')
+
+
 def extra_engines(pid, tier, seed, log, build_state):
+    if pid in ('C11', 'C12'):
+        nat, wasm, sizes = mem_sites(log)
+        out = {'violations': [], 'coverage': {}, 'samples': []}
+        if nat is None or wasm is None:
+            out['violations'].append({'case': '', 'kind': 'the SSA memory facts could not be analysed (Generated/Ssa*.v, Model/Flow.v)', 'no_input': True})
+            return out
+        for build, sites in (('native', nat), ('js/wasm', wasm)):
+            for s_ in sites:
+                out['violations'].append({'case': '(memory discipline, %s build) %s' % (build, s_),
+                                          'impl': 'writes caller / package memory, lets a pooled buffer escape, or returns a buffer to the pool before the call ends',
+                                          'model': 'no such site', 'spec': '-', 'kind': 'memory-discipline site in the regenerated SSA facts', 'no_input': True})
+        if len(sizes) >= 6:
+            out['coverage'] = {'alias_edges_native': sizes[0], 'write_sites_native': sizes[1], 'alias_edges_wasm': sizes[2], 'write_sites_wasm': sizes[3],
+                               'exported_reference_parameters': sizes[4], 'package_variables': sizes[5]}
+            out['evaluations'] = sizes[1] + sizes[3]
+            out['samples'] = [{'write_sites_native': sizes[1], 'write_sites_wasm': sizes[3]}]
+        if pid == 'C11' and tier == 'thorough':
+            report, n = race_run(seed, log)
+            out['coverage']['race_detector_histories'] = n
+            if report is None:
+                out['violations'].append({'case': '', 'kind': 'the harness could not be built with the race detector', 'no_input': True})
+            elif report:
+                out['violations'].append({'case': '(race detector) ' + report.split('\n')[1][:200] if '\n' in report else report[:200], 'impl': report, 'model': 'no data race',
+                                          'spec': '-', 'kind': 'data race reported by the Go race detector', 'no_input': True})
+        return out
     if pid != 'C09':
         return {}
     nat, wasm, sizes = flow_sites(log)
